@@ -134,3 +134,14 @@ func TestC15(t *testing.T) {
 			return h.Labels["reread-after:compaction"]+h.Labels["reread-after:coll-close"]+h.Labels["reread-after:store-close"] > 0
 		})
 }
+
+func TestC09(t *testing.T) {
+	spec := &GenSpec{Prop: "C09", Backings: allBackings, Holds: true, Children: exclChildren("C09")}
+	applyExclusions(spec)
+	Col.SetProp("C09", "program = config x up to 3 rounds of {0-8 shaping ops (batches with frequent deletes, merger cycles, held persister rounds), a collection / child / store snapshot, 1-3 iterators with bounds drawn from {nil, non-nil empty, keys, neighbours of keys, random} and 1-14 calls from {Next xN, SeekTo(x), Current}}; after every call the return value, key and value are compared with a model iterator over the snapshot's first-read content (visit exactly the live k with start <= k < end ascending, ErrIteratorDone repeatedly after the end, SeekTo lands on the least in-range key >= max(x,start)). Non-trivial: a backward SeekTo, a SeekTo after exhaustion or bounds sharing a first byte, on a snapshot with >= 2 sources. Distinct = distinct program hash.")
+	rapid.Check(t, func(rt *rapid.T) {
+		p, excluded := genIterProgram(rt, spec)
+		h := RunHistory(rt, p, oraclesFor["C09"])
+		Col.Case(p.Hash(), p.Compact, h.Labels["c09-nontrivial"] > 0, h.Labels, excluded)
+	})
+}
